@@ -173,6 +173,31 @@ def expected_matrix(lay, r):
     return rows
 
 
+def run_export(item):
+    """What to_dict() exports as blank (#EMPTY) are exactly the blank nodes the
+    specification's machine creates for the layout (one of its final states)."""
+    import random
+    f = impl.F()
+    lay = item['lay']
+    rnd = random.Random(item['seed'])
+    problems = []
+    try:
+        m = f.ExcelModel().from_dict(layout_dict(lay, rnd))
+        d1 = m.to_dict()
+        blanks = sorted(list(parse_pos(k)) for k, v in d1.items()
+                        if isinstance(v, str) and v.upper() == '#EMPTY')
+        allowed = sorted({json.dumps(json.loads(a)['nodes']) for a in item['allowed']})
+        if json.dumps(blanks) not in allowed:
+            problems.append({'kind': 'exported-blanks', 'what': 'exported as #EMPTY: %s; the machine allows %s'
+                             % ([a1(tuple(p)) for p in blanks],
+                                [[a1(tuple(p)) for p in json.loads(a)] for a in allowed])})
+    except BaseException as ex:  # noqa
+        if isinstance(ex, (KeyboardInterrupt, SystemExit)):
+            raise
+        problems.append({'kind': 'raises', 'exc': '%s: %s' % (type(ex).__name__, str(ex)[:200])})
+    return problems
+
+
 def run_layout(item):
     """item: {'lay': one obligation (for pop/blk/req), 'allowed': [final views], 'seed': n}
     -> list of problems."""
@@ -248,10 +273,10 @@ def run_layout(item):
 
 def run_shard(items):
     impl.F()
-    return [(it['key'], run_layout(it)) for it in items]
+    return [(it['key'], run_export(it) if it.get('mode') == 'export' else run_layout(it)) for it in items]
 
 
-def check(rep, n_layouts, seed_, pid='C03'):
+def check(rep, n_layouts, seed_, pid='C03', mode=None):
     """TLC on Assemble.tla (all layouts of the 2 x 3 sheet), then `n_layouts` of them
     (all when None) on the real code."""
     import os
@@ -284,7 +309,7 @@ def check(rep, n_layouts, seed_, pid='C03'):
         rnd.shuffle(rest)
         keys = rich[:n_layouts // 2] + rest[:n_layouts - min(len(rich), n_layouts // 2)]
     items = [{'key': k, 'lay': by[k][0], 'allowed': sorted({final_view(o) for o in by[k]}),
-              'seed': seed_ * 1000003 + i} for i, k in enumerate(keys)]
+              'seed': seed_ * 1000003 + i, 'mode': mode} for i, k in enumerate(keys)]
     res = []
     for part in pmap(run_shard, shards(items, NCPU * 4), chunk=1):
         res.extend(part)
